@@ -58,7 +58,7 @@ class Container:
                     self._itemclass.__name__)
             )
 
-        self._file._h5group.delete_all([item.id])
+        self._file._h5group.delete_all([item.id], [item._h5group])
 
     def __iter__(self):
         for group in self._backend:
@@ -123,9 +123,11 @@ class SectionContainer(Container):
 
         # collect all IDs under item and send them for deletion, starting from
         # the root block
-        secids = [s.id for s in item.find_sections()]
+        secs = item.find_sections()
+        secids = [s.id for s in secs]
 
-        self._file._h5group.delete_all(secids)
+        self._file._h5group.delete_all(secids,
+                                       [s._h5group for s in secs])
 
 
 class SourceContainer(Container):
@@ -146,9 +148,11 @@ class SourceContainer(Container):
 
         # collect all IDs under item and send them for deletion, starting from
         # the root block
-        srcids = [s.id for s in item.find_sources()]
-        srcids.append(item.id)
-        self._file._h5group.delete_all(srcids)
+        srcs = item.find_sources()
+        srcs.append(item)
+        srcids = [s.id for s in srcs]
+        self._file._h5group.delete_all(srcids,
+                                       [s._h5group for s in srcs])
 
 
 class LinkContainer(Container):
